@@ -115,6 +115,7 @@ func shardMain(t *testing.T) int {
 	}
 	info := propTable[prop]
 	var rep *ShardReport
+	installShardWatchdog(env, &liveReport, os.Getenv("VERIF_REPORT"))
 	switch info.Engine {
 	case "history":
 		rep = RunHistoryShard(t, env)
@@ -161,6 +162,11 @@ func replayMain(t *testing.T) int {
 		return 2
 	}
 	fmt.Printf("replaying %s: property=%s engine=%s seed=%d ops=%d tape=%d\n", path, sc.Property, sc.Engine, sc.Seed, len(sc.Ops), len(sc.Tape))
+	if v := envInt("VERIF_HANG_S", 0); v > 0 {
+		hang.limit = time.Duration(v) * time.Second
+	}
+	hang.replay = true
+	hang.watch()
 	w := runnerFor(sc)(t, sc)
 	lh := fmt.Sprintf("%x", w.log.Sum())
 	if w.viol == nil {
